@@ -113,6 +113,12 @@ class Recorder:
         except RuntimeError:
             pass
         sid = lambda s: (s.id if s is not None else "")  # noqa: E731
+        pyd = 0
+        if self.scn.get("pydepth"):
+            fr = sys._getframe()
+            while fr is not None:
+                pyd += 1
+                fr = fr.f_back
         self.emit(
             {
                 "e": "B",
@@ -124,6 +130,7 @@ class Recorder:
                 "tgt": sid(target),
                 "evn": str(event),
                 "nest": _depth.get(),
+                "pyd": pyd,
             }
         )
         return self.ninv
@@ -662,6 +669,28 @@ class Runner:
                     continue
                 self.do_call(step)
 
+    def run_threads_in_turn(self):
+        """Every step on its own loop-less thread, one after the other."""
+        for step in self.scn["steps"]:
+            err = []
+
+            def one(step=step):
+                try:
+                    if step["op"] == "new":
+                        self.do_new(step)
+                    elif step["i"] in self.sm:
+                        self.do_call(step)
+                except BaseException as e:  # noqa: BLE001
+                    err.append(e)
+
+            th = threading.Thread(target=one)
+            th.start()
+            th.join(self.scn.get("timeout", 20))
+            if th.is_alive():
+                raise TimeoutError("step did not terminate")
+            if err:
+                raise err[0]
+
     async def run_inloop(self):
         for step in self.scn["steps"]:
             if step["op"] == "new":
@@ -679,8 +708,11 @@ class Runner:
             try:
                 with warnings.catch_warnings(record=True) as w:
                     warnings.simplefilter("always")
-                    if self.scn.get("driver", "sync") == "inloop":
+                    drv = self.scn.get("driver", "sync")
+                    if drv == "inloop":
                         asyncio.run(self.run_inloop())
+                    elif drv == "threads":
+                        self.run_threads_in_turn()
                     else:
                         self.run_sync()
                     # orphan detection: coroutine callbacks still pending when the caller has
